@@ -155,16 +155,48 @@ func genNameSeq(t *rapid.T) nameSeqCase {
 // PackRR sequences with a caller-owned map, starting at offset 0 (a stand-alone RRset)
 type rrSeqCase struct {
 	Recs []wm.Rec
+	// Room[i] > 0: record i is first offered a buffer that ends Room[i]-1 octets behind the record's
+	// start (the caller's buffer was too small); when that fails the caller repeats the call with
+	// the whole buffer - same record, same offset, same map, as one does after ErrBuf.
+	Room []int `json:",omitempty"`
+	// Undo: the names the refused call left in the map are taken out before the repetition (set by
+	// the generator only while the finding packrr-retry-stale-map is listed and reproduces)
+	Undo bool `json:",omitempty"`
 }
+
+const knownRetry = "packrr-retry-stale-map"
 
 func checkRRSeq(c rrSeqCase) error {
 	buf := bytes.Repeat([]byte{0xEE}, 70000)
 	comp := map[string]int{}
 	off := 0
-	for _, r := range c.Recs {
+	refused := 0
+	for i, r := range c.Recs {
 		rr, err := wm.ToLib(r)
 		if err != nil {
 			return nil
+		}
+		if i < len(c.Room) && c.Room[i] > 0 && off+c.Room[i]-1 < len(buf) {
+			var before map[string]int
+			if c.Undo {
+				before = make(map[string]int, len(comp))
+				for k, v := range comp {
+					before[k] = v
+				}
+			}
+			noff, err := dns.PackRR(rr, buf[:off+c.Room[i]-1], off, comp, true)
+			if err == nil {
+				off = noff // there was room after all
+				continue
+			}
+			refused++
+			if c.Undo {
+				for k := range comp {
+					if _, ok := before[k]; !ok {
+						delete(comp, k)
+					}
+				}
+			}
 		}
 		noff, err := dns.PackRR(rr, buf, off, comp, true)
 		if err != nil {
@@ -172,12 +204,15 @@ func checkRRSeq(c rrSeqCase) error {
 		}
 		off = noff
 	}
+	if refused > 0 {
+		pbt.Class("call-repeated-after-short-buffer")
+	}
 	// read the records back with the library and compare with the model
 	pos := 0
 	for i, r := range c.Recs {
 		rr, npos, err := dns.UnpackRR(buf[:off], pos)
 		if err != nil {
-			return pbt.Errf("record %d packed by PackRR with a compression map from offset 0 does not unpack: %v", i, err)
+			return pbt.Errf("record %d packed by PackRR with a compression map from offset 0 does not unpack: %v (%d calls were first refused for lack of room and repeated with the whole buffer; octets from the record's start: %s)", i, err, refused, hx(buf[pos:off]))
 		}
 		back, err := wm.FromLib(rr, true)
 		if err != nil {
@@ -206,7 +241,31 @@ func genRRSeq(t *rapid.T) rrSeqCase {
 		owner := c.Recs[0].Name
 		c.Recs = append(c.Recs, wm.Rec{Name: owner.Clone(), Type: wm.TMX, Class: 1, TTL: 5, Fields: []wm.Field{{K: wm.U16, U: 10}, {K: wm.NameC, N: append(wm.Name{[]byte("mail")}, owner.Clone()...)}}})
 	}
+	// a caller whose buffer turns out too small for a record and who repeats the call with a larger one
+	if rapid.IntRange(0, 2).Draw(t, "shortbuffer") == 0 {
+		c.Room = make([]int, len(c.Recs))
+		for i, r := range c.Recs {
+			if rapid.Bool().Draw(t, "short") {
+				w, _ := wm.EncodeRR(r)
+				c.Room[i] = 1 + rapid.IntRange(0, len(w)).Draw(t, "room")
+			}
+		}
+		if pbt.Known(knownRetry) {
+			c.Undo = true
+			pbt.Excluded(knownRetry)
+		}
+	}
 	return c
+}
+
+func init() {
+	// www.example.org. A: the owner (17 octets) fits into 20 octets, the fixed part of the record does
+	// not; the refused call leaves "www.example.org." -> 0 in the caller's map and the repetition
+	// writes the owner as c0 00
+	pbt.Probe(knownRetry, func() error {
+		return pbt.Guard(checkRRSeq, rrSeqCase{Room: []int{21}, Recs: []wm.Rec{{Name: wm.MustName("www.example.org."), Type: wm.TA, Class: 1, TTL: 60,
+			Fields: []wm.Field{{K: wm.IPv4, B: []byte{192, 0, 2, 1}}}}}})
+	})
 }
 
 func init() {
